@@ -1,4 +1,6 @@
 import PromModel.Suites.NhcbSuite
+import PromProofs.NhcbGroups
+import PromProofs.NhcbFields
 /-
   C36 — classic histograms convert to custom-bucket histograms without loss.
   Theorems about the transcription of `NHCBParser`/`TempHistogram` in PromModel/Ingest/Nhcb.lean.
@@ -88,5 +90,234 @@ theorem processNHCB_idle (cfg : Cfg) (s : St) (h : s.state ≠ .collecting) : pr
 theorem meta_passthrough (cfg : Cfg) (s : St) (n t : String) :
     (step cfg s (.typ n t)).1.getLast? = some (.typ n t) ∧ (step cfg s (.help n t)).1.getLast? = some (.help n t) := by
   simp [step]
+
+/-! ### Stream level: induction over the inner entry stream
+
+  `WF cfg es` (PromProofs/NhcbRef.lean) is the explicit well-formedness predicate: walking the stream with
+  the reference grouping, (a) every group that ends converts (its series form a valid classic histogram:
+  no Convert/Validate failure — excludes C36-F3), (b) no exponential histogram arrives while a group is
+  open (excludes C36-F2), (c) with keep-classic the collated series carry no exemplars (excludes C36-F1),
+  (d) when the wrapped parser leaves `HasTs/Ts` of a reused exemplar slot untouched, every collated
+  exemplar has a timestamp (excludes C36-F4), (e) series handed on while a group is open have the group's
+  start timestamp, and the code is the repaired one (F23).  It is decidable (`Bool`-valued walk). -/
+
+/-- a text-format payload as entry stream:
+    `# TYPE h histogram`, `h_bucket{le="1"} 2`, `h_bucket{le="+Inf"} 5`, `h_count 5`, `h_sum 1.5`,
+    `# TYPE g gauge`, `g 1` -/
+def exStream : List Entry :=
+  [ .typ "68" "686973746f6772616d",
+    .series "b1" [("5f5f6e616d655f5f", "685f6275636b6574"), ("6c65", "31")] 0x4000000000000000 (some 1000) 0 [],
+    .series "b2" [("5f5f6e616d655f5f", "685f6275636b6574"), ("6c65", "2b496e66")] 0x4014000000000000 (some 1000) 0 [],
+    .series "c" [("5f5f6e616d655f5f", "685f636f756e74")] 0x4014000000000000 (some 1000) 0 [],
+    .series "s" [("5f5f6e616d655f5f", "685f73756d")] 0x3ff8000000000000 (some 1000) 0 [],
+    .typ "67" "6761756765",
+    .series "g" [("5f5f6e616d655f5f", "67")] 0x3ff0000000000000 none 0 [] ]
+
+def exCfg (keep : Bool) : Cfg := { keep := keep, parseST := true, partialEx := true, fixed := true }
+
+/-- a non-trivial stream is well-formed (with and without keep-classic) … -/
+example : WF (exCfg false) exStream ∧ WF (exCfg true) exStream := by decide +kernel
+
+/-- … and is converted to one histogram with bound 1.0, buckets 2 and 3, count 5, sum 1.5, timestamp 1000 -/
+example : transform (exCfg false) exStream =
+    [ .typ "68" "686973746f6772616d",
+      .nhcb "68" [("5f5f6e616d655f5f", "68")] (some 1000) 0 [] (.int 5 0x3ff8000000000000 [0x3ff0000000000000] [2, 3]),
+      .typ "67" "6761756765",
+      .series "g" [("5f5f6e616d655f5f", "67")] 0x3ff0000000000000 none 0 [] ] := by decide +kernel
+
+/-- **Refinement** (per inner entry): on a well-formed stream the wrapped parser returns, while each inner
+    entry is the last one pulled, exactly what the reference grouping prescribes — the converted histogram
+    of the group ending there, then the entry itself unless it was collated.  Proof: induction over the
+    stream with the invariant `Sim` on the parser state (PromProofs/NhcbSim.lean). -/
+theorem stream_refines_reference (cfg : Cfg) (es : List Entry) (h : WF cfg es) :
+    (run cfg {} es).map (·.map (Out.norm cfg)) = (refRun cfg {} es).map (·.map (Out.norm cfg)) :=
+  run_sim cfg h.1 es {} {} (sim_init cfg) h.2
+
+theorem transform_refines_reference (cfg : Cfg) (es : List Entry) (h : WF cfg es) :
+    (transform cfg es).map (Out.norm cfg) = (refTransform cfg es).map (Out.norm cfg) := by
+  unfold transform refTransform
+  rw [List.map_flatten, List.map_flatten, stream_refines_reference cfg es h]
+
+/-- `nhcb_groups`: for every well-formed inner entry stream the output consists of exactly one converted
+    histogram per group (`groups`: maximal runs of classic-histogram series with the same base name and
+    labels minus `le`), in the order of the groups, and of the entries handed on (`passed`: everything
+    except the collated classic series, which are kept only with keep-classic). -/
+theorem nhcb_groups (cfg : Cfg) (es : List Entry) (h : WF cfg es) :
+    ((transform cfg es).filter Out.isNhcb).map (Out.norm cfg) = ((groups cfg es).flatMap Grp.out).map (Out.norm cfg) ∧
+    (∀ g ∈ groups cfg es, ∃ c, g.conv = some c ∧ g.out = [.nhcb (metricString g.base) g.base g.ts g.st g.exs c]) ∧
+    ((transform cfg es).filter (fun o => !o.isNhcb)).map (Out.norm cfg) = (passed cfg es).map (Out.norm cfg) := by
+  have ht := transform_refines_reference cfg es h
+  refine ⟨?_, ?_, ?_⟩
+  · rw [← filter_nhcb_norm, ht, filter_nhcb_norm]
+    unfold refTransform groups
+    rw [refRun_nhcb]
+  · intro g hg
+    have hc := refGroups_conv cfg es {} h.2 g hg
+    obtain ⟨c, hc⟩ := Option.isSome_iff_exists.mp hc
+    exact ⟨c, hc, by simp [Grp.out, hc]⟩
+  · rw [← filter_not_nhcb_norm, ht, filter_not_nhcb_norm]
+    unfold refTransform passed
+    rw [refRun_passed]
+
+/-- the number of converted histograms is the number of groups -/
+theorem nhcb_count (cfg : Cfg) (es : List Entry) (h : WF cfg es) :
+    ((transform cfg es).filter Out.isNhcb).length = (groups cfg es).length := by
+  have h1 := congrArg List.length (nhcb_groups cfg es h).1
+  simp only [List.length_map] at h1
+  rw [h1, List.length_flatMap]
+  have : ∀ gs : List Grp, (∀ g ∈ gs, g.out.length = 1) → (gs.map (fun g => g.out.length)).sum = gs.length := by
+    intro gs; induction gs with
+    | nil => intro _; rfl
+    | cons g gs ih =>
+      intro hh
+      simp only [List.map_cons, List.sum_cons, List.length_cons]
+      rw [hh g (by simp), ih (fun x hx => hh x (by simp [hx]))]; omega
+  apply this
+  intro g hg
+  obtain ⟨c, _, ho⟩ := (nhcb_groups cfg es h).2.1 g hg
+  rw [ho]; rfl
+
+theorem Grp.conv_some {g : Grp} {c : Conv} (h : g.conv = some c) : g.temp.convert = some c ∧ c.valid = true := by
+  unfold Grp.conv at h
+  split at h
+  · split at h
+    · cases h; exact ⟨by assumption, by assumption⟩
+    · cases h
+  · cases h
+
+/-- `nhcb_fields`: on a well-formed stream, the converted histogram of every group `g`
+    * is `nhcb (series text of g.base) g.base g.ts g.st g.exs c`: labels = those of the group's first series
+      with `__name__` := base name and without `le` (`metricBase`), timestamp and start timestamp = those of
+      the first series, exemplars = the exemplars of all its series in order (by construction of `Grp` in
+      `refFresh`/`refSame`);
+    * custom values = the finite upper bounds stored for the group, which are strictly increasing, each of
+      them the `le` of one of the group's `_bucket` series together with that series' cumulative count, and
+      every `_bucket` series' bound is present (up to IEEE `==`);
+    * sum = the `_sum` series' value, counts (`Conv.CountsOf`): bucket counts = adjacent differences of the
+      cumulative counts (incl. the `+Inf`/missing-`+Inf` rule of `effBuckets`), count = `_count` series or
+      the default; for integer histograms `cumulate 0 abs` gives the cumulative counts back;
+    * it passes `Validate`. -/
+theorem nhcb_fields (cfg : Cfg) (es : List Entry) (h : WF cfg es) : ∀ g ∈ groups cfg es, ∃ c,
+    g.out = [.nhcb (metricString g.base) g.base g.ts g.st g.exs c] ∧
+    c.cv = customValues g.temp.buckets ∧
+    c.cv.Pairwise (fun a b => flt a b = true) ∧
+    (∀ b ∈ g.temp.buckets, Upd.bucket b.le b.count ∈ g.upds) ∧
+    (∀ le v, Upd.bucket le v ∈ g.upds → ∃ b ∈ g.temp.buckets, feq b.le le = true) ∧
+    c.sum = g.temp.sum ∧ c.CountsOf g.temp ∧ c.valid = true := by
+  intro g hg
+  obtain ⟨c, hc, ho⟩ := (nhcb_groups cfg es h).2.1 g hg
+  obtain ⟨hcv, hv⟩ := Grp.conv_some hc
+  obtain ⟨he, f1, f2, f3⟩ := g.temp.convert_fields c hcv
+  obtain ⟨m1, m2⟩ := g.temp_buckets he
+  refine ⟨c, ho, f1, ?_, m1, m2, f2, f3, hv⟩
+  rw [f1]
+  exact customValues_sorted _ g.temp_sorted
+
+/-- integer histograms: re-cumulating the bucket counts gives the cumulative counts of the series back -/
+theorem nhcb_fields_int_roundtrip (h : Temp) (count : Int) (sum : Nat) (cv : List Nat) (abs : List Int)
+    (hc : (Conv.int count sum cv abs).CountsOf h) :
+    h.effBuckets.mapM (fun b => asI64? b.count) = some (cumulate 0 abs) := by
+  obtain ⟨ints, h1, h2, _⟩ := hc
+  rw [h2, decumulate_cumulate_id, h1]
+
+/-- `keep_classic_superset`: with keep-classic, on a well-formed stream, (1) the stream is also well-formed
+    for the parser without keep-classic and the converted histograms are the same, (2) everything else in
+    the output is the inner stream itself (up to its first error), every entry exactly as the inner parser
+    delivers it — in particular all classic series. -/
+theorem keep_classic_superset (cfg : Cfg) (es : List Entry) (hk : cfg.keep = true) (h : WF cfg es) :
+    WF { cfg with keep := false } es ∧
+    ((transform cfg es).filter Out.isNhcb).map (Out.norm cfg) =
+      ((transform { cfg with keep := false } es).filter Out.isNhcb).map (Out.norm cfg) ∧
+    ((transform cfg es).filter (fun o => !o.isNhcb)).map (Out.norm cfg) =
+      ((upToErr es).map Entry.toOut).map (Out.norm cfg) := by
+  have h0 : WF { cfg with keep := false } es := ⟨h.1, wfGo_keep_false cfg es {} h.2⟩
+  refine ⟨h0, ?_, ?_⟩
+  · rw [(nhcb_groups cfg es h).1]
+    have := (nhcb_groups _ es h0).1
+    have hn : Out.norm { cfg with keep := false } = Out.norm cfg := by
+      funext o; cases o <;> rfl
+    rw [hn] at this
+    rw [this]
+    unfold groups
+    rw [refGroups_keep cfg false]
+  · rw [(nhcb_groups cfg es h).2.2]
+    unfold passed
+    rw [refPassed_keep cfg hk]
+
+example : ((transform (exCfg true) exStream).filter (fun o => !o.isNhcb)) = exStream.map Entry.toOut := by
+  decide +kernel
+
+/-! ### The situations `WF` excludes: known findings C36-F1 … C36-F4, each with a concrete witness
+
+  (`decide +kernel`: the kernel evaluates the model on the concrete stream; hex strings: `68` = `h`,
+  `67` = `g`, `685f6275636b6574` = `h_bucket`, `685f636f756e74` = `h_count`, `31` = `1`, `2b496e66` = `+Inf`.) -/
+
+def tH : Entry := .typ "68" "686973746f6772616d"
+def tG : Entry := .typ "67" "686973746f6772616d"
+def nm (s : String) : Lbl := ("5f5f6e616d655f5f", s)
+def leL (s : String) : Lbl := ("6c65", s)
+def cfgW (keep : Bool) : Cfg := { keep := keep, parseST := false, partialEx := false, fixed := true }
+
+/-- `# TYPE h histogram`, `h_bucket{le="+Inf"} 5 # {…} …` -/
+def f1Stream : List Entry :=
+  [ tH, .series "b" [nm "685f6275636b6574", leL "2b496e66"] 0x4014000000000000 none 0 ["x/0/-"] ]
+
+/-- C36-F1: with keep-classic the kept classic series comes back without its exemplar; the stream is
+    well-formed without keep-classic and excluded by `WF` with it (clause `wfMember`, first conjunct). -/
+theorem keep_classic_exemplars_witness :
+    ¬ WF (cfgW true) f1Stream ∧ WF (cfgW false) f1Stream ∧
+    (transform (cfgW true) f1Stream).filter (fun o => !o.isNhcb) =
+      [ .typ "68" "686973746f6772616d",
+        .series "b" [nm "685f6275636b6574", leL "2b496e66"] 0x4014000000000000 none 0 [] ] ∧
+    (transform (cfgW true) f1Stream).filter (fun o => !o.isNhcb) ≠ f1Stream.map Entry.toOut := by
+  decide +kernel
+
+/-- `# TYPE h histogram`, `h_bucket{le="+Inf"} 5`, then an exponential histogram `h{a="b"}` -/
+def f2Stream : List Entry :=
+  [ tH, .series "b" [nm "685f6275636b6574", leL "2b496e66"] 0x4014000000000000 none 0 [],
+    .hist "e" [nm "68", ("61", "62")] none 0 [] "H" ]
+
+/-- C36-F2: the stream without the exponential entry has one group and one converted histogram; with the
+    exponential entry arriving while the group is open nothing is converted (the group is dropped), and
+    `WF` excludes the stream (clause `.hist` of `wfStep`). -/
+theorem exponential_drops_classic_witness :
+    ¬ WF (cfgW false) f2Stream ∧ (groups (cfgW false) (f2Stream.take 2)).length = 1 ∧
+    ((transform (cfgW false) (f2Stream.take 2)).filter Out.isNhcb).length = 1 ∧
+    (transform (cfgW false) f2Stream).filter Out.isNhcb = [] := by
+  decide +kernel
+
+/-- `h_bucket{le="1"} 5`, `h_count 3` (fails Validate: negative `+Inf` bucket), then the valid histogram
+    `g_bucket{le="1"} 1`, `g_bucket{le="+Inf"} 1`, `g_count 1` -/
+def f3Stream : List Entry :=
+  [ tH, .series "b" [nm "685f6275636b6574", leL "31"] 0x4014000000000000 none 0 [],
+    .series "c" [nm "685f636f756e74"] 0x4008000000000000 none 0 [],
+    tG, .series "b1" [nm "675f6275636b6574", leL "31"] 0x3ff0000000000000 none 0 [],
+    .series "b2" [nm "675f6275636b6574", leL "2b496e66"] 0x3ff0000000000000 none 0 [],
+    .series "c" [nm "675f636f756e74"] 0x3ff0000000000000 none 0 [] ]
+
+/-- C36-F3: the histogram failing Validate leaves `stateCollecting` and its buckets behind: the buckets of
+    the following valid histogram `g` are merged into it and lost, `g` is converted from its `_count` series
+    alone (no custom value) instead of with its bound 1.0.  `WF` excludes the stream (`g.conv.isSome`),
+    while the valid histogram alone is well-formed. -/
+theorem failed_validate_leaves_state_witness :
+    ¬ WF (cfgW false) f3Stream ∧ WF (cfgW false) (f3Stream.drop 3) ∧
+    (transform (cfgW false) (f3Stream.drop 3)).filter Out.isNhcb =
+      [.nhcb "67" [nm "67"] none 0 [] (.int 1 0 [0x3ff0000000000000] [1, 0])] ∧
+    (transform (cfgW false) f3Stream).filter Out.isNhcb =
+      [.nhcb "67" [nm "67"] none 0 [] (.int 1 0 [] [1])] := by
+  decide +kernel
+
+/-- C36-F4: after a histogram with exemplar `old` was converted, `processNHCB` resets `len`/`count` of the
+    exemplar buffer but keeps the slot; when the wrapped parser's `Exemplar()` leaves `HasTs`/`Ts` untouched
+    (`partialWrite`), an exemplar `l`/`v`/no-timestamp stored next inherits the timestamp `ot` of
+    `old`.  `WF` excludes it (`wfMember`, second conjunct: every collated exemplar has a timestamp).
+    (`"a/b/c".splitOn "/" = ["a","b","c"]` by `#eval`; `splitOn` does not reduce in the kernel.) -/
+theorem stale_exemplar_timestamp_witness (old new l v a b ot : String)
+    (hn : new.splitOn "/" = [l, v, "-"]) (ho : old.splitOn "/" = [a, b, ot]) :
+    (ExBuf.store true { buf := [old], len := 0, count := 0 } [new]).buf.take
+        (ExBuf.store true { buf := [old], len := 0, count := 0 } [new]).count = [l ++ "/" ++ v ++ "/" ++ ot] ∧
+    exHasTs new = false := by
+  refine ⟨?_, by simp [exHasTs, hn]⟩
+  simp [ExBuf.store, ExBuf.nextPtr, mergeEx, hn, ho]
 
 end Prom.C36
